@@ -65,6 +65,7 @@ static void child(char mode, uint8_t* src, size_t len, int rfd)
   yr_compiler_define_string_variable(comp, "ext_str", "hello");
   yr_compiler_define_boolean_variable(comp, "ext_bool", 1);
   int errs = (mode == 'B') ? yr_compiler_add_bytes(comp, src, len, NULL) : yr_compiler_add_string(comp, (const char*) src, NULL);
+  int lasterr = comp->last_error;   // error code behind the last callback
   int got = 0; char scan[48] = "-";
   if (errs == 0)
   {
@@ -109,8 +110,8 @@ static void child(char mode, uint8_t* src, size_t len, int rfd)
   kind[k] = 0;
   for (char* p = c.l0msg; *p; p++) if (*p == ' ') *p = '_';
   char res[512];
-  int l = snprintf(res, sizeof res, "errs=%d cb=%d warn=%d msgok=%d lineok=%d l0=%d l0eof=%d rules=%d scan=%s destroy=1 follow=%s kind=%s l0msg=%.60s", errs, c.errs, c.warns, c.msgok,
-                   c.lineok, c.l0, c.l0eof, got, scan, follow, k ? kind : "-", c.l0msg[0] ? c.l0msg : "-");
+  int l = snprintf(res, sizeof res, "errs=%d cb=%d warn=%d msgok=%d lasterr=%s lineok=%d l0=%d l0eof=%d rules=%d scan=%s destroy=1 follow=%s kind=%s l0msg=%.60s", errs, c.errs, c.warns, c.msgok,
+                   errname(lasterr), c.lineok, c.l0, c.l0eof, got, scan, follow, k ? kind : "-", c.l0msg[0] ? c.l0msg : "-");
   if (write(rfd, res, l) != l) _exit(24);
   _exit(leaks ? 23 : 0);
 }
